@@ -6,6 +6,8 @@
        | err <kind>
     e <nsPort> <text> <text>      parse both, compare   →  eq 0|1 | err
     i <text>                      int(text)              →  ok <int> | err
+    h <nsPort> <text> <op>…       proxy history from Proxy(URI(<text>)): ops  s (send) | c (copy) | u:<text> (uri replaced)
+                                  →  ok <str of delivered uri, ascending tags>|…   one entry per s/c
 -/
 import PyroModel.Uri
 import PyroModel.Gen.C19
@@ -34,6 +36,19 @@ def applyPerm (tags : List Text) (perm : List Nat) : List Text :=
   if perm.isEmpty then tags
   else perm.filterMap (fun i => tags[i]?)
 
+/-- `s` = send, `c` = copy, `u:<text>` = the proxy's uri is replaced by URI(<text>) -/
+def parseProxyOp (np : Nat) (t : String) : Option ProxyOp :=
+  if t == "s" then some .send
+  else if t == "c" then some .copy
+  else match t.toList with
+    | 'u' :: ':' :: rest =>
+      match parseNatList (String.ofList rest) with
+      | some txt => match parse guards np txt with
+        | .ok v => some (.setUri v)
+        | .error _ => none
+      | none => none
+    | _ => none
+
 def step : List String → String
   | ["p", port, txt, perm] =>
     match port.toNat?, parseNatList txt, parseNatList perm with
@@ -53,6 +68,17 @@ def step : List String → String
       | .ok u, .ok v => if eqUri u v then "eq 1" else "eq 0"
       | _, _ => "err"
     | _, _, _ => "bad-op"
+  | "h" :: port :: init :: ops =>
+    match port.toNat?, parseNatList init with
+    | some np, some s =>
+      match parse guards np s, ops.mapM (parseProxyOp np) with
+      | .ok u, some l =>
+        let outs := proxyRun guards np Uri.tagOrder u l
+        "ok " ++ "|".intercalate (outs.map fun r => match r with
+          | .ok v => showText (render v v.tagOrder)
+          | .error _ => "err")
+      | _, _ => "bad-op"
+    | _, _ => "bad-op"
   | ["i", txt] =>
     match parseNatList txt with
     | some s => match pyInt s with
